@@ -77,6 +77,7 @@ PEERS = ('p0', 'p1', 'p2', 'p3')
 ROOTS = ('r1', 'r2')
 BASE = 1.0
 QUIET = 2.0
+SETTLE = 1.0
 LINK_WAIT = 2.0
 SIMPLE_NET = {'base_ms': 5, 'jitter_ms': 0, 'segmentation': 'whole', 'coalesce': True}
 GAPS = (0.0, 0.0, 0.0, 0.001, 0.01, 0.05, 0.3, 0.3, 1.0, 3.0)
@@ -143,6 +144,8 @@ def generate(rng, index, tier):
             free = [p for p in names if p not in proposed]
             peer = rng.choice(free) if free and rng.random() < 0.8 else rng.choice(names)
             events.append({'op': 'connect', 'peer': peer, 'gap': _gap(rng)})
+            if rng.random() < 0.15:
+                events[-1]['indirect'] = True
             con.append(peer)
             children.append(peer)
         elif r < 0.62:
@@ -200,6 +203,10 @@ def generate(rng, index, tier):
     if rng.random() < 0.04:
         events[rng.randrange(len(events))]['gap'] = 61.0
     plan['events'] = events[:10]
+    if rng.random() < 0.12:
+        plan['firewalled'] = [rng.choice(names)]
+    if rng.random() < 0.1:
+        plan['pierce_all'] = True
     return plan
 
 
@@ -272,13 +279,17 @@ def corpus(tier):
                           conn('p3', gap=1.0), close('p0', gap=1.0)]))
         out.append(_plan([conn('p2'), {'op': 'session_loss', 'how': how, 'gap': 1.0}, pot('p0', gap=0.0),
                           conn('p3', gap=1.0)]))
+    # 9b. connections made the indirect way: firewalled candidate, candidate answering both ways, child through the server
+    out.append(_plan([conn('p2', indirect=True), pot('p0', 'p1'), _ann('p0'), conn('p3', gap=3.0)], firewalled=['p0']))
+    out.append(_plan([conn('p2'), pot('p0', 'p1'), _ann('p0'), _ann('p1', level=3, root='r2')], pierce_all=True))
+    out.append(_plan([conn('p2', indirect=True), conn('p3', indirect=True, gap=0.0), pot('p0', gap=1.0), _ann('p0')]))
     # 10. silence: the D connections run into their read timeout
     out.append(_plan([conn('p2'), pot('p0'), _ann('p0'), conn('p3', gap=61.0)]))
     return out
 
 
 SHRINK_LISTS = ('events',)
-SHRINK_PROTECT = ('peers', 'omit')
+SHRINK_PROTECT = ('peers', 'omit', 'firewalled')
 
 
 def simplify(plan):
@@ -290,6 +301,10 @@ def simplify(plan):
         yield dict(plan, min_speed=1, ratio=50, speed=25600)
     if plan.get('npeers') != 4:
         yield dict(plan, npeers=4)
+    if plan.get('firewalled'):
+        yield dict(plan, firewalled=[])
+    if plan.get('pierce_all'):
+        yield dict(plan, pierce_all=False)
     for i, ev in enumerate(plan.get('events', [])):
         def variant(**kw):
             cand = copy.deepcopy(plan)
@@ -313,6 +328,8 @@ def simplify(plan):
                 yield variant(level=2)
         if ev['op'] == 'close' and ev.get('how') != 'close':
             yield variant(how='close')
+        if ev.get('indirect'):
+            yield variant(indirect=False)
         if 'speed' in ev and ev['op'] != 'stats':
             cand = copy.deepcopy(plan)
             del cand['events'][i]['speed']
@@ -402,7 +419,7 @@ def _run(world: World, plan):
         for fut in list(link_waiters[peer.name]):
             if not fut.done():
                 fut.set_result(None)
-        world.trace('link', peer.name, slot, rec['index'])
+        world.trace('link', peer.name, slot, rec['index'], sim.id)
         touch()
         return rec
 
@@ -423,19 +440,51 @@ def _run(world: World, plan):
                 rec['got'].append((loop.time(), 'root', msg.username))
             world.trace('peer_got', rec['index'], type(msg).__qualname__ if not isinstance(msg, tuple) else 'undecodable')
 
+    firewalled = [p for p in plan.get('firewalled', []) if p in names]
+    pierce_all = bool(plan.get('pierce_all'))
+    server_tickets = {}           # ticket of a ConnectToPeer the server sent to alice -> peer name
+
     def make_accept(peer):
         async def on_accept(link):
             touch()
             init = await link.recv_init()
             touch()
-            if not isinstance(init, M.PeerInit.Request) or init.typ != 'D':
+            if isinstance(init, M.PeerInit.Request) and init.typ == 'D':
+                rec = register_link(peer, link, 'acc')
+            elif isinstance(init, M.PeerPierceFirewall.Request) and server_tickets.get(init.ticket) == peer.name:
+                # alice answers a ConnectToPeer that the server sent on the peer's behalf: child candidate
+                link.typ = 'D'
+                link.obfuscated = False
+                rec = register_link(peer, link, 'con')
+            else:
                 return
-            rec = register_link(peer, link, 'acc')
             await reader(rec)
         return on_accept
 
+    def make_relay_handler(peer):
+        async def on_relay(relay):
+            # alice asked the server for an indirect connection (the peer cannot be reached, or answers anyway)
+            if relay.typ != 'D' or not (pierce_all or peer.name in firewalled):
+                return
+            touch()
+            try:
+                link = await peer.connect_pierce(relay.ip, relay.port, relay.ticket, 'D')
+            except OSError:
+                return
+            rec = register_link(peer, link, 'acc')
+            await reader(rec)
+        return on_relay
+
     for peer in peers.values():
         peer.accept_handler = make_accept(peer)
+        peer.connect_to_peer_handler = make_relay_handler(peer)
+
+    if firewalled:
+        def connect_hook(attempt):
+            if attempt['src'] == OWN and attempt['dst'] in firewalled:
+                return ('refuse', 0.01)
+            return None
+        world.net.connect_hook = connect_hook
 
     async def child_connect(peer, ticket):
         link = await peer.connect_direct(alice.host.ip, 60000, 'D', ticket)
@@ -591,8 +640,8 @@ def _run(world: World, plan):
     snap = {'key': (0, ()), 'parent': None, 'children': []}
 
     def link_index(dp):
-        rec = by_sim.get(conn_sim.get(id(dp.connection)))
-        return rec['index'] if rec is not None else None
+        # the simulated connection's id (known from PeerInitializedEvent on, before the peer may have seen it)
+        return conn_sim.get(id(dp.connection))
 
     def monitor():
         parent = dn.parent
@@ -623,16 +672,20 @@ def _run(world: World, plan):
                 pc = prev_parent.connection
                 if pc.state == ConnectionState.CONNECTED and pc is not parent.connection:
                     world.violate('C13.two_parents', how='live_parent_replaced')
-        if parent is not None:
+        same_conn = parent is not None and any(c.connection is parent.connection for c in children)
+        if same_conn and not state.get('same_conn'):
             how = 'child_became_parent' if parent is not prev_parent else 'parent_admitted_as_child'
-            if any(c.connection is parent.connection for c in children):
-                state['pic'] = state.get('pic') or {'by': 'connection', 'how': how}
-                world.violate('C13.parent_is_child', **state['pic'])
-            elif any(c.username == parent.username for c in children):
-                state['pic'] = state.get('pic') or {'by': 'user', 'how': how}
-                world.violate('C13.parent_is_child', **state['pic'])
-            else:
-                state['pic'] = None
+            world.violate('C13.parent_is_child', by='connection', how=how)
+        state['same_conn'] = same_conn
+        # the same user on two connections: a repair has to close the child's connection, which takes
+        # a few loop iterations; judged once it has lasted SETTLE virtual seconds (same_user_check)
+        same_user = parent is not None and any(
+            c.username == parent.username and c.connection is not parent.connection for c in children)
+        if not same_user:
+            state['same_user'] = None
+        elif state.get('same_user') is None:
+            state['same_user'] = {'since': now,
+                                  'how': 'child_became_parent' if parent is not prev_parent else 'parent_admitted_as_child'}
         prev_ids = {id(c) for c in prev_children}
         for pos, c in enumerate(children):
             if id(c) not in prev_ids:
@@ -641,6 +694,11 @@ def _run(world: World, plan):
                                    'link': link_index(c), 'session': state['session_lost'] is None})
                 sig.append(('child', pos))
         snap.update(key=key, parent=parent, children=list(children))
+
+    def same_user_check():
+        rec = state.get('same_user')
+        if rec is not None and loop.time() - rec['since'] >= SETTLE:
+            world.violate('C13.parent_is_child', by='user', how=rec['how'])
 
     loop.monitors.append(monitor)
 
@@ -671,11 +729,7 @@ def _run(world: World, plan):
                 if DEBUG:
                     facts.update(remote_socket=bool(socks and socks[1]), ended=rec['ended'] if rec else None)
                 world.violate('C13.dead_link', **facts)
-        if parent is not None and not state.get('pic'):
-            if any(c.connection is parent.connection for c in children):
-                world.violate('C13.parent_is_child', by='connection', how='at_rest')
-            elif any(c.username == parent.username for c in children):
-                world.violate('C13.parent_is_child', by='user', how='at_rest')
+        same_user_check()
         if state['session_lost'] is not None:
             return
         # advertised position
@@ -716,7 +770,7 @@ def _run(world: World, plan):
                 world.violate('C13.child_told', field='position', why='child_without_known_connection', **base)
                 continue
             got = model.told([(k, v) for (_, k, v) in rec['got']], OWN)
-            joined = next((a for a in admissions if a['link'] == rec['index']), None)
+            joined = next((a for a in admissions if a['link'] == rec['sim'].id), None)
             facts = dict(base)
             if DEBUG:
                 facts['joined'] = ('with_parent' if joined and _had_parent(transitions, joined['iteration'])
@@ -732,6 +786,7 @@ def _run(world: World, plan):
     # ------------------------------------------------------------------ driver
     def fire(ev):
         op = ev['op']
+        same_user_check()
         touch()
         if op == 'potential':
             entries = [PotentialParent(p, peers[p].host.ip, peers[p].port) for p in ev['peers']]
@@ -742,8 +797,16 @@ def _run(world: World, plan):
         elif op == 'connect':
             peer = peers[ev['peer']]
             state['tickets'] += 1
-            peer.spawn(child_connect(peer, state['tickets']))
-            sig.append(('connect', dn.parent is not None, len(dn.children)))
+            if ev.get('indirect') and peer.name not in firewalled:
+                # the peer asks through the server: alice connects and pierces
+                ticket = 900000 + state['tickets']
+                server_tickets[ticket] = peer.name
+                server.send_to(OWN, M.ConnectToPeer.Response(
+                    username=peer.name, typ='D', ip=peer.host.ip, port=peer.port, ticket=ticket, privileged=False,
+                    obfuscated_port_amount=0, obfuscated_port=0))
+            else:
+                peer.spawn(child_connect(peer, state['tickets']))
+            sig.append(('connect', bool(ev.get('indirect')), dn.parent is not None, len(dn.children)))
         elif op == 'ann':
             peers[ev['peer']].spawn(with_link(ev, do_ann(ev)))
         elif op == 'close':
@@ -822,7 +885,7 @@ def _run(world: World, plan):
                 verdict['session'] = False
             world.violate('C13.child_admission', **verdict)
             flags.add('admission_violation')
-    refused = [r for r in links if r['slot'] == 'con' and not any(a['link'] == r['index'] for a in admissions)]
+    refused = [r for r in links if r['slot'] == 'con' and not any(a['link'] == r['sim'].id for a in admissions)]
     if refused:
         flags.add('admission_refused')
         world.probe('child_candidate_not_admitted', len(refused))
